@@ -2,6 +2,7 @@
 # © Copyright 2021-2022 Zapata Computing Inc.
 ################################################################################
 import json
+from copy import copy
 from functools import lru_cache
 from math import log2
 from typing import Any, Dict, List, Optional, Sequence, Set, Tuple, Union
@@ -119,7 +120,7 @@ class Wavefunction:
         return self._amplitude_vector[idx]
 
     def __setitem__(self, idx, val):
-        old_val = self._amplitude_vector[idx]
+        old_val = copy(self._amplitude_vector[idx])
         self._amplitude_vector[idx] = val
 
         try:
